@@ -280,7 +280,7 @@ class SymDomain(BaseDomain):
             sum=d.np_sum, prod=d.np_prod, sqrt=d.f_sqrt, abs=d.np_abs, absolute=d.np_abs,
             max=d.np_max, min=d.np_min, maximum=lambda a, b: d.b_max(a, b), minimum=lambda a, b: d.b_min(a, b),
             argmax=d.np_argmax, argmin=d.np_argmin, argsort=d.np_argsort,
-            allclose=lambda *a, **k: UNKNOWN("allclose"), isclose=lambda *a, **k: UNKNOWN("isclose"),
+            allclose=lambda a, b, **k: UNKNOWN(("allclose", a, b)), isclose=lambda *a, **k: UNKNOWN("isclose"),
             any=d.np_any, all=d.np_all, isscalar=d.np_isscalar,
             isfinite=lambda v: UNKNOWN("isfinite"), isnan=lambda v: UNKNOWN("isnan"),
             where=d.np_where, clip=d.np_clip,
@@ -608,9 +608,13 @@ class SymDomain(BaseDomain):
 
     # linear algebra ----------------------------------------------------------------
     def la_norm(self, a, ord=None, axis=None, **k):
+        if isinstance(a, Opaque):
+            return a
         if isinstance(a, (list, tuple)):
             a = self.np_array(a)
         a = wrap(a)
+        if any(isinstance(v, Opaque) for v in a.reshape(-1)):
+            return Opaque("norm")
         if axis is not None:
             raise Unsupported("norm with axis")
         if ord in (None, "fro", 2) and (ord != 2 or a.ndim == 1):
